@@ -111,7 +111,7 @@ Aux:
 				if sym, ok := a.(Symbol); ok && 0 < len(sym) && sym[0] == ':' {
 					sym = sym[1:]
 					if len(args) <= ai {
-						panic(fmt.Sprintf("Missing value for key :%s.", sym))
+						ErrorPanic(s, depth, "Missing value for key :%s.", sym)
 					}
 					switch {
 					case lam.isKeyParam(string(sym)):
